@@ -172,7 +172,7 @@ func ruleR07a(c *Ctx) {
 			return s
 		},
 		Edge: func(pc *PathCtx, s uint64, from *ssa.BasicBlock, si int) (uint64, bool) {
-			for _, f := range edgeFacts(from, si) {
+			for _, f := range pc.edgeFacts(from, si) {
 				if empty, ok := isKeyEmptyFact(f); ok {
 					if empty {
 						s |= rvEMPTY
@@ -355,7 +355,7 @@ func builderStamps(c *Ctx, m *cmdModel, fn *ssa.Function, depth int, seen map[ss
 			return s
 		},
 		Edge: func(pc *PathCtx, s uint64, from *ssa.BasicBlock, si int) (uint64, bool) {
-			for _, f := range edgeFacts(from, si) {
+			for _, f := range pc.edgeFacts(from, si) {
 				if _, isIK := fieldRead(f.X, m.fIK); isIK {
 					if str, ok := constString(f.Y); ok && str == "" {
 						if f.Eq {
@@ -565,7 +565,7 @@ func ruleR11a(c *Ctx) {
 				return s
 			},
 			Edge: func(pc *PathCtx, s uint64, from *ssa.BasicBlock, si int) (uint64, bool) {
-				for _, f := range edgeFacts(from, si) {
+				for _, f := range pc.edgeFacts(from, si) {
 					if str, ok := constString(f.Y); ok && str == "" && sameSource(f.X, keyVal) {
 						if f.Eq {
 							s |= rvEMPTY
@@ -702,7 +702,7 @@ func ruleR10ab(c *Ctx) {
 			return s
 		},
 		Edge: func(pc *PathCtx, s uint64, from *ssa.BasicBlock, si int) (uint64, bool) {
-			for _, f := range edgeFacts(from, si) {
+			for _, f := range pc.edgeFacts(from, si) {
 				if base, ok := fieldRead(f.X, m.fReverted); ok {
 					fromRead := false
 					for _, r := range roots(rootBase(base), nil) {
@@ -852,7 +852,7 @@ func guardedByValueFact(c *Ctx, fn *ssa.Function, target ssa.Instruction, v ssa.
 	ok, seen := true, false
 	pr := &PathRule{
 		Edge: func(pc *PathCtx, s uint64, from *ssa.BasicBlock, si int) (uint64, bool) {
-			for _, f := range edgeFacts(from, si) {
+			for _, f := range pc.edgeFacts(from, si) {
 				if f.X == v {
 					if b, isB := constBool(f.Y); isB {
 						if (b == f.Eq) == want {
